@@ -71,6 +71,7 @@ func init() {
 		}
 	}
 	basicByName["byte"] = types.Typ[types.Uint8]
+	basicByName["unsafe.Pointer"] = types.Typ[types.UnsafePointer]
 }
 
 func (e *Env) eval(ex *Expr) Value {
@@ -662,6 +663,29 @@ func (e *Env) call(ex *Expr) Value {
 			e.fail("fnval: unknown function %q", args[0].Name)
 		}
 		return e.x.funcValue(fn)
+	case "tview":
+		// tview("int8", h): the typed view h.Int8s() of a *storage.Header
+		bt, ok := basicByName[args[0].Name]
+		if !ok {
+			e.fail("tview: unknown basic type %q", args[0].Name)
+		}
+		raw, ok := e.field(e.eval(args[1]), "Raw", ex).(SliceV)
+		if !ok {
+			e.fail("tview: argument has no Raw slice")
+		}
+		v := e.x.typedView(raw, bt)
+		return SliceV{Arr: v.Arr, Off: v.Off, Len: v.Len, Cap: v.Len, Elem: bt}
+	case "contents":
+		// contents(s): the whole backing array of slice s as a value (for summary functions)
+		sv, ok := e.eval(args[0]).(SliceV)
+		if !ok {
+			e.fail("contents of non-slice")
+		}
+		ms := heapMaps(PElem, sv.Elem, nil)
+		if len(ms) != 1 {
+			e.fail("contents: element type %s has several leaves", sv.Elem)
+		}
+		return Scalar{Select(e.x.heapGet(e.st, ms[0]), sv.Arr)}
 	case "niliface":
 		return IfaceV{IntLit(0), IntLit(0)}
 	case "fst":
@@ -674,6 +698,9 @@ func (e *Env) call(ex *Expr) Value {
 	}
 	if f, ok := e.x.P.db.Fns[name]; ok {
 		return e.specCall(f, args, ex)
+	}
+	if strings.HasPrefix(name, "summ_") {
+		e.x.P.db.UFuns[name] = "bool"
 	}
 	if ret, ok := e.x.P.db.UFuns[name]; ok {
 		var ats []Term
@@ -693,6 +720,16 @@ func (e *Env) call(ex *Expr) Value {
 			rs = SBool
 		}
 		fn := "u!" + smtName(name)
+		if strings.HasPrefix(name, "summ_") {
+			// summary predicates are used at several element sorts: one symbol per signature
+			var sig []string
+			for _, so := range sorts {
+				if so != SInt {
+					sig = append(sig, smtSortName(so))
+				}
+			}
+			fn += "!" + smtName(strings.Join(sig, "_"))
+		}
 		e.x.decls.Fun(fn, sorts, rs)
 		return Scalar{App(rs, fn, ats...)}
 	}
